@@ -48,6 +48,51 @@ sys.exit(1 if bad else 0)
 '''
 
 
+REPLAY_MOVED = '''
+from vlib import build
+import os, sys, tempfile, shutil
+drf = build.load_pkg()
+from digital_rf import ringbuffer as RB
+from watchdog.events import FileMovedEvent
+kw = %r
+top = tempfile.mkdtemp()
+names = [('ch0', 10), ('ch0', 11), ('ch1', 11), ('ch1', 13)]
+paths = []
+for ch, t in names:
+    d = os.path.join(top, ch, '2020-01-01T00-00-00'); os.makedirs(d, exist_ok=True)
+    paths.append(os.path.join(d, 'rf@%%d.000.h5' %% t))
+h = RB.DigitalRFRingbufferHandler(size=kw.get('size'), count=kw.get('count'))
+def put(p, s): open(p, 'wb').write(b'x' * s)
+f1, f2, fm = kw['f1'], kw['f2'], kw['fm']
+put(paths[f1], kw.get('s1', 10)); (h.modify_files if kw.get('k1') == 1 else h.add_files)([paths[f1]])
+put(paths[f2], kw.get('s2', 10)); h.add_files([paths[f2]])
+src = paths[fm]; dst = paths[kw['fd']] if 'fd' in kw else (paths[(fm + 1) %% 4] if fm < 3 else paths[0])
+if os.path.exists(src): os.replace(src, dst)
+else: put(dst, kw.get('s2', 10))
+before = sorted(p for p in paths if os.path.exists(p))
+attempts = []
+_rm = os.remove
+class OSProxy:
+    def __getattr__(self, k): return getattr(os, k)
+    def remove(self, p): attempts.append((p, os.path.exists(p))); return _rm(p)
+RB.os = OSProxy()
+h.on_moved(FileMovedEvent(src, dst))
+after = sorted(p for p in paths if os.path.exists(p))
+gone = [p for p in before if p not in after]
+bad = 0
+for p, there in attempts:
+    if not there: print('the handler tried to delete', os.path.basename(p), 'which does not exist: its books deviate from the files on disk'); bad = 1
+if gone:
+    # was any limit exceeded by the files that existed?
+    per = {}
+    for p in before: per.setdefault(os.path.dirname(p), []).append(p)
+    over = (kw.get('count') is not None and any(len(v) > kw['count'] for v in per.values())) or (kw.get('size') is not None and sum(os.path.getsize(p) for p in before) > kw['size'])
+    print('deleted', [os.path.basename(g) for g in gone], 'limit exceeded by existing files:', over); bad = bad or not over
+shutil.rmtree(top)
+sys.exit(1 if bad else 0)
+'''
+
+
 def main(tier):
     rep = common.Report('C16', tier, 'model_checking', functions=FUNCS)
     st = smt.Stats()
@@ -78,9 +123,12 @@ def main(tier):
     res = chx.run_module('ring', per_condition_timeout=300 if tier == 'quick' else 1200, nproc=16)
     titles = {'_hist2_count': 'count limit: after any 2 notifications (add/modify/remove of any of 4 files, duplicates and unknown files included) bookkeeping == truth, deletions only of the oldest tracked file of a channel whose limit is exceeded, limit holds after every add',
               '_hist2_duration': 'duration limit: same', '_hist2_size': 'size limit (symbolic sizes, modify changes size): same, and tracked size == sum of tracked file sizes',
+              '_hist_moved': 'count limit: two reports then a rename of a tracked file to another data-file name (moved event): nothing is deleted unless the files that really exist exceed the limit; the books follow the rename',
+              '_hist_moved_size': 'size limit: same with symbolic sizes',
               '_ring_witness': 'reachability: a deletion is reachable'}
     replays = {'_hist2_count': lambda kw: REPLAY % (kw, ['count'], []), '_hist2_duration': lambda kw: REPLAY % (kw, ['duration'], []),
-               '_hist2_size': lambda kw: REPLAY % (kw, ['size'], [])}
+               '_hist2_size': lambda kw: REPLAY % (kw, ['size'], []),
+               '_hist_moved': lambda kw: REPLAY_MOVED % (kw,), '_hist_moved_size': lambda kw: REPLAY_MOVED % (kw,)}
     for k3 in range(3):
         for f3 in range(4):
             nm = '_hist3_all_%d_%d' % (k3, f3)
